@@ -442,7 +442,7 @@ func (s *scen) observe(strayKey common.Hash) observed {
 	s.lastHits = s.chain.existHits
 	s.seenFinished = s.seenFinished || st0.Finished || st0.Ended || len(s.chain.generated) > 0
 	if emitted && !s.reaped {
-		if !s.round.WaitReaped(8 * time.Second) {
+		if !s.round.WaitReaped(3 * time.Second) {
 			panic("the reaper did not remove the party after an end event")
 		}
 		s.reaped = true
